@@ -12,6 +12,18 @@ CHECKS = {
  "C12": dict(technique="Coq proof (lia over unbounded N with explicit 64-bit guards) + differential correspondence in overflow-checking and wrapping builds",
    text="fee_sufficient equals the exact unbounded-integer predicate for all u64 x u64 x u32 x u32 outside the recorded known-finding class (64-bit product overflow, where the code is proved to answer 'insufficient'); the failure encoding is proved byte-exact and injective. Correspondence: boundary lattice at the exact threshold +-1 and random values, dev and release builds of the real function.",
    note="Trusted: Coq kernel; harness. Known finding KF-D (product overflow => conservative false) is listed in known_findings.json. The composite clause (first HTLC answered with the policy failure) is covered by the system model.", design="6/C12"),
+ "C10": dict(technique="Coq proof over an executable model of check_htlc/extract_trampoline_info with the BOLT11 parser as a universally quantified oracle + differential correspondence on an invoice x request cross product",
+   text="C10_sound: for EVERY oracle, configuration and request, a request classified as trampoline carries metadata that decodes, an invoice blob that the oracle parses with a valid signature and the HTLC's own payment hash, the amount rule of the property, and passes the self-route-hint rule; C10_self_hint: the disallowed self hint yields temporary_node_failure. Correspondence runs the real private check_htlc on ~3000 combinations built with the plugin's own lightning-invoice crate; the monitor re-checks the property on the implementation's answer, including payee = key recovered from the signature.",
+   note="Trusted: Coq kernel; lightning-invoice/secp256k1 as the oracle (parse, check_signature, recover_payee_pub_key); harness. No axioms.", design="6/C10"),
+ "C13": dict(technique="Coq proof (definitional no-effect on the global step function + TLV strip lemma) + differential correspondence of classification and payload rewrite",
+   text="C13_no_effect: a request the model does not classify as trampoline leaves the global state unchanged and is answered in the same step; C13_answer_shape / C13_rewrite_only_strips: the answer is continue (or the self-hint failure) and a rewritten payload is the decoded stream minus the FIRST type-16 record, every other record re-encoded in order (byte-identical for valid streams by C18). Correspondence: real check_htlc/default_response on malformed payloads/metadata, forwards, unusable invoices, and payloads that are rewritten with records of every BigSize width around the metadata record.",
+   note="Trusted: Coq kernel; harness. The 'no RPC call, no state' clause is also monitored on every system trace (SysMon P13). No axioms.", design="6/C13"),
+ "C15": dict(technique="Coq proof: inductive invariant over arbitrary event lists of the stand-alone provider machine + exhaustive interleaving exploration of the real wait_payment",
+   text="C15_wait: for ANY number of parts in ANY initial status and ANY history (node processes a query, reply delivered, part resolves, any RPC fails), wait_payment returns a preimage only if a part is complete with it and 'none' only if every part has failed at that moment; part-level failure codes do not end the wait while another part is awaited. Proved by an inductive invariant (PInv) preserved by every event. Correspondence: replay-based DFS over ALL interleavings of the real wait_payment for every configuration of <=2 (quick) / <=3 (thorough) parts, random paths beyond, with and without injected errors.",
+   note="Trusted: Coq kernel; simulated node = contract N3/N6 (no pay running during the wait; waitsendpay answers only final parts); harness. No axioms.", design="6/C15"),
+ "C16": dict(technique="Coq proof: the same inductive invariant in pay mode (pay command creating parts, every contract-respecting outcome) + exhaustive interleaving exploration of the real pay wrapper",
+   text="C16_pay: for every initial part configuration, every way the pay command ends (subject to N1-N3) and every later resolution order, the wrapper's Ok carries the preimage of a completed part and its final Err comes only when every part has failed and no pay runs; an Err caused by a failing list/wait RPC is the explicit third outcome (known-finding class KF-B, kf_read_error), C16_needs_N2 records the contract boundary.",
+   note="Trusted: Coq kernel; contract N1 (complete carries a part's preimage), N2 (failed without warning only when nothing is pending/complete), N3; harness. No axioms.", design="6/C16"),
 }
 
 manifest = {
